@@ -517,3 +517,34 @@ Proof.
   destruct (browser_update_names j nms nulls w1 []) as [[w2 qnames] e2]. cbn [fst snd] in Q. subst qnames.
   destruct (browser_cache_addresses now j (m_records m) w2) as [w3 e3]. cbn [snd]. exists e2, e3. reflexivity.
 Qed.
+
+(* ---- enumerate-all, the learning half: whatever the caches hold, an enumerate-all browser that meets a PTR record named
+   "_services._dns-sd._udp.local." while it goes through a response caches it, inserts its target (the service type) into the
+   batch of types to be asked about and (re)starts the batch timer - at every position of the response (the statement
+   unfolds one step of the loop at an arbitrary world) ---- *)
+Lemma classify_browse b r : is_any b = true -> r_type r = T_PTR -> r_name r = Some browse_type ->
+  classify b r = (true, None, Some (r_target r)).
+Proof.
+  intros A Ty Nm. unfold classify. rewrite Ty, N.eqb_refl, A. unfold browser_ptr_browse. rewrite Nm.
+  cbn [andb]. unfold bs_eqb. rewrite bytes_eqb_refl. reflexivity.
+Qed.
+
+Lemma new_type_is_batched now j r rs names nulls w b :
+  nth_error (w_browsers w) j = Some b -> is_any b = true -> r_type r = T_PTR -> r_name r = Some browse_type ->
+  let b' := mkBrowser (b_type b) (b_cache b) (b_services b) (b_hostnames b) (set_insert (bs_data (r_target r)) (b_ptr_targets b)) in
+  let w1 := mkWorld (w_caches w) (replace_nth j b' (w_browsers w)) (w_jitter w) in
+  browser_cache_records now j (r :: rs) names nulls w =
+    (let '(w2, e2) := world_cache_add now (b_cache b) r w1 in
+     let '(w3, nm, nl, e3) := browser_cache_records now j rs names nulls w2 in
+     (w3, nm, nl, [EStart (T_SERVICE_OF j) service_batch_ms] ++ e2 ++ e3)).
+Proof.
+  intros Hb A Ty Nm. cbn [browser_cache_records]. rewrite Hb, (classify_browse b r A Ty Nm). reflexivity.
+Qed.
+
+Lemma set_insert_mem x : forall l, set_mem x (set_insert x l) = true.
+Proof.
+  induction l as [|y l IH]; cbn [set_insert set_mem existsb]; [rewrite bytes_eqb_refl; reflexivity|].
+  destruct (bytes_ltb x y) eqn:E1; [cbn [existsb]; rewrite bytes_eqb_refl; reflexivity|].
+  destruct (bytes_ltb y x) eqn:E2; [cbn [existsb]; unfold set_mem in IH; rewrite IH; apply orb_true_r|].
+  cbn [existsb]. rewrite (bytes_ltb_tricho x y E1 E2), bytes_eqb_refl. reflexivity.
+Qed.
